@@ -1,5 +1,5 @@
 (* Proofs about Ledger/Bulk.v, for every element list and every per-element step function. *)
-From Coq Require Import List Bool Arith Lia.
+From Coq Require Import List Bool Arith Lia Permutation Sorted.
 From LV Require Import Ledger.Bulk.
 Import ListNotations.
 
@@ -162,15 +162,171 @@ Section BulkProofs.
     assert (rs = rs2) by (destruct (atomic && e2); inversion H; reflexivity). subst. eapply run_seq_standalone; exact E.
   Qed.
 
-  (* response: entry i carries result i and action i *)
-  Lemma respond_nth {A} (actions : list A) rs i a r :
-    nth_error actions i = Some a -> nth_error rs i = Some r ->
-    nth_error (respond is_ok actions rs) i = Some (if is_ok r then Some a else None, r).
+  (* ---------- response: sort by ElementID, then positional pairing ---------- *)
+  Notation ins_by_id := (@ins_by_id res).
+  Notation sort_by_id := (@sort_by_id res).
+  Definition key_le (a b : nat * res) : Prop := fst a <= fst b.
+
+  Lemma ins_perm x l : Permutation (ins_by_id x l) (x :: l).
   Proof.
-    revert rs i. induction actions as [|b actions IH]; intros rs i Ha Hr; [destruct i; discriminate|].
-    destruct rs as [|x rs]; [destruct i; discriminate|]. destruct i as [|i]; simpl in *.
-    - inversion Ha; inversion Hr; subst. reflexivity.
-    - apply IH; assumption.
+    induction l as [|y l IH]; simpl; [apply Permutation_refl|].
+    destruct (fst x <=? fst y); [apply Permutation_refl|].
+    eapply perm_trans; [apply perm_skip; exact IH | apply perm_swap].
+  Qed.
+
+  Lemma sort_perm l : Permutation (sort_by_id l) l.
+  Proof.
+    induction l as [|x l IH]; simpl; [apply perm_nil|].
+    eapply perm_trans; [apply ins_perm | apply perm_skip; exact IH].
+  Qed.
+
+  Lemma ins_sorted x l : StronglySorted key_le l -> StronglySorted key_le (ins_by_id x l).
+  Proof.
+    induction l as [|y l IH]; intros Hs; simpl.
+    - constructor; [constructor | constructor].
+    - inversion Hs as [|? ? Hs' Hall]; subst.
+      destruct (fst x <=? fst y) eqn:E.
+      + apply Nat.leb_le in E. constructor; [exact Hs|].
+        constructor; [exact E|]. eapply Forall_impl; [|exact Hall]. intros z Hz. unfold key_le in *. lia.
+      + apply Nat.leb_gt in E. constructor; [apply IH; exact Hs'|].
+        eapply Permutation_Forall; [apply Permutation_sym, ins_perm|].
+        constructor; [unfold key_le; lia | exact Hall].
+  Qed.
+
+  Lemma sort_sorted l : StronglySorted key_le (sort_by_id l).
+  Proof. induction l as [|x l IH]; simpl; [constructor | apply ins_sorted; exact IH]. Qed.
+
+  (* strictly increasing lists with the same elements are equal *)
+  Lemma strict_sorted_unique : forall l1 l2 : list nat,
+    StronglySorted lt l1 -> StronglySorted lt l2 -> (forall x, In x l1 <-> In x l2) -> l1 = l2.
+  Proof.
+    induction l1 as [|a l1 IH]; intros l2 H1 H2 Heq.
+    - destruct l2 as [|b l2]; [reflexivity|]. exfalso. apply (proj2 (Heq b)). left; reflexivity.
+    - destruct l2 as [|b l2]; [exfalso; apply (proj1 (Heq a)); left; reflexivity|].
+      inversion H1 as [|? ? H1' Ha]; inversion H2 as [|? ? H2' Hb]; subst.
+      rewrite Forall_forall in Ha, Hb.
+      assert (a = b).
+      { destruct (proj1 (Heq a) (or_introl eq_refl)) as [E|Hin]; [symmetry; exact E|].
+        destruct (proj2 (Heq b) (or_introl eq_refl)) as [E|Hin2]; [exact E|].
+        specialize (Hb _ Hin). specialize (Ha _ Hin2). lia. }
+      subst b. f_equal. apply IH; [exact H1' | exact H2'|].
+      intros x. split; intros Hx.
+      + destruct (proj1 (Heq x) (or_intror Hx)) as [E|Hin]; [|exact Hin]. subst x. specialize (Ha _ Hx). lia.
+      + destruct (proj2 (Heq x) (or_intror Hx)) as [E|Hin]; [|exact Hin]. subst x. specialize (Hb _ Hx). lia.
+  Qed.
+
+  Lemma seq_strict n : forall a, StronglySorted lt (seq a n).
+  Proof.
+    induction n as [|n IH]; intros a; simpl; constructor; [apply IH|].
+    apply Forall_forall. intros x Hx. apply in_seq in Hx. lia.
+  Qed.
+
+  Lemma sorted_keys_strict (l : list (nat * res)) :
+    StronglySorted key_le l -> NoDup (map fst l) -> StronglySorted lt (map fst l).
+  Proof.
+    induction l as [|x l IH]; intros Hs Hn; simpl; [constructor|].
+    inversion Hs as [|? ? Hs' Hall]; inversion Hn as [|? ? Hnin Hn']; subst.
+    constructor; [apply IH; assumption|].
+    apply Forall_forall. intros k Hk. apply in_map_iff in Hk. destruct Hk as [y [<- Hy]].
+    rewrite Forall_forall in Hall. specialize (Hall _ Hy). unfold key_le in Hall.
+    assert (fst x <> fst y) by (intros E; apply Hnin; rewrite E; apply in_map; exact Hy). lia.
+  Qed.
+
+  (* when the tags are exactly the indices 0..n-1 (in any order), sorting puts the result tagged i at position i *)
+  Lemma sort_keys (tagged : list (nat * res)) n :
+    Permutation (map fst tagged) (seq 0 n) -> map fst (sort_by_id tagged) = seq 0 n.
+  Proof.
+    intros Hp.
+    assert (Hps : Permutation (map fst (sort_by_id tagged)) (seq 0 n)).
+    { eapply perm_trans; [apply Permutation_map, sort_perm | exact Hp]. }
+    apply strict_sorted_unique.
+    - apply sorted_keys_strict; [apply sort_sorted|].
+      eapply Permutation_NoDup; [apply Permutation_sym; exact Hps | apply seq_NoDup].
+    - apply seq_strict.
+    - intros x. split; intros Hx; [eapply Permutation_in; [exact Hps | exact Hx] | eapply Permutation_in; [apply Permutation_sym; exact Hps | exact Hx]].
+  Qed.
+
+  Lemma sort_nth (tagged : list (nat * res)) n i :
+    Permutation (map fst tagged) (seq 0 n) -> i < n ->
+    exists r, nth_error (sort_by_id tagged) i = Some (i, r) /\ In (i, r) tagged.
+  Proof.
+    intros Hp Hi. pose proof (sort_keys tagged n Hp) as Hk.
+    assert (Hlen : length (sort_by_id tagged) = n) by (rewrite <- (map_length fst), Hk; apply seq_length).
+    destruct (nth_error (sort_by_id tagged) i) as [[k r]|] eqn:E.
+    - assert (k = i).
+      { pose proof (map_nth_error fst i (sort_by_id tagged) E) as Hm. rewrite Hk in Hm. simpl in Hm.
+        rewrite nth_error_nth' with (d := 0) in Hm by (rewrite seq_length; exact Hi).
+        rewrite seq_nth in Hm by exact Hi. inversion Hm. reflexivity. }
+      subst k. exists r. split; [reflexivity|].
+      eapply Permutation_in; [apply sort_perm | eapply nth_error_In; exact E].
+    - apply nth_error_None in E. lia.
+  Qed.
+
+  (* the response attributes to element i the result tagged i -- whatever the completion order *)
+  Lemma respond_nth {A} (actions : list A) (tagged : list (nat * res)) i a :
+    Permutation (map fst tagged) (seq 0 (length actions)) -> nth_error actions i = Some a ->
+    exists r, In (i, r) tagged /\
+      nth_error (respond is_ok actions tagged) i = Some (if is_ok r then Some a else None, r).
+  Proof.
+    intros Hp Ha.
+    assert (Hi : i < length actions) by (apply nth_error_Some; rewrite Ha; discriminate).
+    destruct (sort_nth tagged _ i Hp Hi) as [r [Hn Hin]].
+    exists r. split; [exact Hin|].
+    unfold respond. 
+    assert (Hs : nth_error (map snd (sort_by_id tagged)) i = Some r) by (apply (map_nth_error snd i _ Hn)).
+    assert (Hc : nth_error (combine actions (map snd (sort_by_id tagged))) i = Some (a, r)).
+    { clear - Ha Hs. revert i Ha Hs. generalize (map snd (sort_by_id tagged)) as rs.
+      induction actions as [|b actions IH]; intros rs i Ha Hs; [destruct i; discriminate|].
+      destruct rs as [|x rs]; [destruct i; discriminate|]. destruct i as [|i]; simpl in *.
+      - inversion Ha; inversion Hs; subst; reflexivity.
+      - apply IH; assumption. }
+    apply (map_nth_error (fun ar : A * res => (if is_ok (snd ar) then Some (fst ar) else None, snd ar)) i _ Hc).
+  Qed.
+
+  (* tags of a sequential run *)
+  Lemma tag_seq_keys (rs : list res) : map fst (tag_seq rs) = seq 0 (length rs).
+  Proof.
+    unfold tag_seq. generalize 0 as a. induction rs as [|r rs IH]; intros a; simpl; [reflexivity|]. rewrite IH. reflexivity.
+  Qed.
+
+  Lemma tag_seq_in (rs : list res) i r : In (i, r) (tag_seq rs) -> nth_error rs i = Some r.
+  Proof.
+    unfold tag_seq.
+    assert (H : forall a, In (i, r) (combine (seq a (length rs)) rs) -> a <= i /\ nth_error rs (i - a) = Some r).
+    { induction rs as [|x rs IH]; intros a Hin; simpl in Hin; [contradiction|].
+      destruct Hin as [E|Hin].
+      - inversion E; subst. rewrite Nat.sub_diag. split; [lia | reflexivity].
+      - destruct (IH _ Hin) as [Hle Hn]. split; [lia|].
+        replace (i - a) with (S (i - S a)) by lia. exact Hn. }
+    intros Hin. destruct (H 0 Hin) as [_ Hn]. rewrite Nat.sub_0_r in Hn. exact Hn.
+  Qed.
+
+  (* tags of a schedule: the valid element indices of the schedule, in completion order *)
+  Lemma run_sched_tags cont es sched : forall s err s' rs err',
+    run_sched cont es s err sched = (s', rs, err') ->
+    map fst rs = filter (fun i => match nth_error es i with Some _ => true | None => false end) (map fst sched).
+  Proof.
+    induction sched as [|[i late] sched IH]; intros s err s' rs err' H; simpl in H.
+    - inversion H; reflexivity.
+    - simpl. destruct (nth_error es i) as [e|] eqn:En.
+      + destruct (late && err && negb cont).
+        * destruct (run_sched cont es s err sched) as [[s2 rs2] e2] eqn:E. inversion H; subst. simpl. f_equal. eapply IH; exact E.
+        * destruct (exec s e) as [s1 x]. destruct (run_sched cont es s1 (err || negb (is_ok x)) sched) as [[s2 rs2] e2] eqn:E.
+          inversion H; subst. simpl. f_equal. eapply IH; exact E.
+      + eapply IH; exact H.
+  Qed.
+
+  Lemma run_sched_tags_perm cont es sched s err s' rs err' :
+    run_sched cont es s err sched = (s', rs, err') ->
+    Permutation (map fst sched) (seq 0 (length es)) -> Permutation (map fst rs) (seq 0 (length es)).
+  Proof.
+    intros H Hp. rewrite (run_sched_tags _ _ _ _ _ _ _ _ H).
+    assert (Hf : forall (f : nat -> bool) l, (forall x, In x l -> f x = true) -> filter f l = l).
+    { intros f l. induction l as [|x l IH]; intros Hall; simpl; [reflexivity|].
+      rewrite (Hall x (or_introl eq_refl)). f_equal. apply IH. intros y Hy. apply Hall. right; exact Hy. }
+    rewrite Hf; [exact Hp|].
+    intros x Hx. assert (Hin : In x (seq 0 (length es))) by (eapply Permutation_in; [exact Hp | exact Hx]).
+    apply in_seq in Hin. destruct (nth_error es x) eqn:E; [reflexivity|]. apply nth_error_None in E. lia.
   Qed.
 
   (* parallel, tasks all started before the first completion (no cancellation): serial execution of the permuted list *)
